@@ -46,6 +46,16 @@ def Plan.script (p : Plan) (count : Nat) : List Nat :=
     | some 0 => BIG
     | some c => c)
 
+/-- rough cost (list steps) of running the `Nq.Substdio` model over a stream of `len` bytes under this plan with a
+`bufsize`-byte buffer: `oneread` computes `src.length` at every read(), so small caps on long streams are quadratic.
+The drivers skip the composed-model comparison (not the oracles, not the pure-model comparison) above a budget. -/
+def Plan.cost (p : Plan) (len bufsize : Nat) : Nat :=
+  let minCap := p.caps.foldl (fun m c => match c with
+    | some 0 => m | none => m | some c => min m c) bufsize
+  len * len / (max 1 minCap)
+
+def costBudget : Nat := 30000000
+
 /-- a coarse class of the plan, for the input-distribution counters -/
 def Plan.cls (p : Plan) : String :=
   let base := if p.hasFail then "fail" else
@@ -65,12 +75,14 @@ def skipLoop : Nat → ISt → Nat → Option ISt
       | (s', .got b) => skipLoop fuel s' (left + 1 - b.length)
       | _ => none
 
-/-- per-stream signature of the first run seen, to compare the other chunkings of the same stream with -/
-initialize sigRef : IO.Ref (Std.HashMap UInt64 (String × String)) ← IO.mkRef {}
+/-- per-stream signature of the first run seen, to compare the other chunkings of the same stream with.
+(Created in `main` with `IO.mkRef`: a global `initialize`d ref would make every stored object shared, and
+the map would be copied on each insertion.) -/
+abbrev SigRef := IO.Ref (Std.HashMap UInt64 (String × String))
 
 /-- `none` = first time or same signature; `some first` = differs from the run under plan `first` -/
-def checkSig (key : UInt64) (plan sig : String) : IO (Option String) :=
-  sigRef.modifyGet fun m => match m[key]? with
+def checkSig (r : SigRef) (key : UInt64) (plan sig : String) : IO (Option String) :=
+  r.modifyGet fun m => match m[key]? with
     | none => (none, m.insert key (plan, sig))
     | some (p0, s0) => (if s0 == sig then none else some p0, m)
 
